@@ -212,18 +212,29 @@ func (s *TieredCompactionStrategy) CompactRange(minKey, maxKey []byte) error {
 		}
 	}
 
-	// Find overlapping files in each level
-	for level := 0; level <= maxLevel; level++ {
-		var overlappingFiles []*SSTableInfo
-
-		for _, file := range s.levels[level] {
-			if file.Overlaps(rangeInfo) {
-				overlappingFiles = append(overlappingFiles, file)
+	// Find overlapping files in each level. A selected file may hold keys outside
+	// the requested range, and the output is written below every existing level:
+	// every file that shares such a key has to be compacted with it, otherwise
+	// an older version left in place would end up above the newer one. So the
+	// range is widened to the hull of the selected files until nothing is added.
+	selected := make(map[*SSTableInfo]bool)
+	for grown := true; grown; {
+		grown = false
+		for level := 0; level <= maxLevel; level++ {
+			for _, file := range s.levels[level] {
+				if selected[file] || !file.Overlaps(rangeInfo) {
+					continue
+				}
+				selected[file] = true
+				task.InputFiles[level] = append(task.InputFiles[level], file)
+				if bytes.Compare(file.FirstKey, rangeInfo.FirstKey) < 0 {
+					rangeInfo.FirstKey = file.FirstKey
+				}
+				if bytes.Compare(file.LastKey, rangeInfo.LastKey) > 0 {
+					rangeInfo.LastKey = file.LastKey
+				}
+				grown = true
 			}
-		}
-
-		if len(overlappingFiles) > 0 {
-			task.InputFiles[level] = overlappingFiles
 		}
 	}
 
